@@ -66,7 +66,7 @@ impl From<IncomplVarDecl> for VarDecl {
             VariableSpecificationKind::String(node) => {
                 InitialValueAssignmentKind::String(StringInitializer {
                     length: node.length,
-                    width: StringType::String,
+                    width: node.width,
                     initial_value: None,
                     keyword_span: node.keyword_span,
                 })
